@@ -1343,15 +1343,34 @@ Definition client_denotation (us : string -> string) (i : client_input) : option
   | CIMultiget _ mg => olet r <- den_multiget us mg; Some (RMultiget r)
   end.
 
+(** What the property says must cross the wire of a selector: the address-data request
+    (requested vCard properties or all-properties).  Which DAV: live properties
+    (getetag, getlastmodified, getcontentlength, ...) are asked for beside it is not part
+    of the request the statement speaks about: the specification compares requests up to
+    the other children of DAV:prop.  address-data itself must still be there, with the
+    right content, as often as denoted (once). *)
+Definition is_address_data (i : r_item) : bool :=
+  match i with RAddressData _ => true | ROther _ => false end.
+Definition sel_essence (s : r_sel) : r_sel :=
+  match s with RSelProp items => RSelProp (filter is_address_data items) | _ => s end.
+Definition request_essence (r : request) : request :=
+  match r with
+  | RQuery q => RQuery (mkRQ (sel_essence (rq_sel q)) (rq_test q) (rq_filters q) (rq_limit q))
+  | RMultiget m => RMultiget (mkRM (sel_essence (rm_sel m)) (rm_hrefs m))
+  end.
+Definition same_request (a b : request) : bool :=
+  request_eqb (request_essence a) (request_essence b).
+
 (** the specification of the client side: a value that denotes a request is sent as
-    a document the RFC reader reads as that request; a value that denotes none
+    a document the RFC reader reads as that request (up to the live properties asked for
+    beside address-data, [same_request]); a value that denotes none
     (invalid enumeration string, contradictory filter, empty multiget) must not be
     sent as a document that reads as a request — except the empty multiget, which
     the client documents nothing about and turns into a multiget of the collection
     path itself (reported separately, see C09_multiget_empty_paths) *)
 Definition client_spec_ok (us : string -> string) (i : client_input) (o : client_obs) : bool :=
   match client_denotation us i, o with
-  | Some r, COBody t => opt_eqb request_eqb (rfc_read t) (Some r)
+  | Some r, COBody t => match rfc_read t with Some r' => same_request r' r | None => false end
   | Some _, COError => false
   | None, COError => true
   | None, COBody t =>
